@@ -4,7 +4,7 @@ from __future__ import annotations
 from t2.family import KINDS, QUICK, EOF_KINDS, SINGLE_ONLY, Program, enumerate_programs, sample_programs, valid_sequence
 
 # kinds whose symbolic execution is expensive (nested data-dependent loops): only alone or with cheap partners
-HEAVY = {"z_uleb", "d_inner", "b64", "z_i24", "d_i24", "a_inner_2", "dyn", "d_expr", "d_expr2", "d_blk", "d_blk2"}
+HEAVY = {"z_uleb", "d_inner", "b64", "z_i24", "d_i24", "a_inner_2", "dyn", "d_expr", "d_expr2", "d_blk", "d_blk2", "d_pnode"}
 REJECTED = {"b8_roll"}  # straddling bit-field: must be refused at definition time (checked under C06)
 CHEAP_PARTNERS = ["u8", "u32", "i24"]
 
@@ -149,7 +149,7 @@ def _quick_ok(p):
     return not (p.align and len(p.kinds) > 2 and any(k in LEB_KINDS for k in p.kinds))
 
 
-NESTING_KINDS = {"inner", "anon_s", "named_s", "anon_u", "named_u", "a_inner_2", "dyn", "d_inner", "anon_bits", "anon_s32", "anon_s3", "same_hdr", "ptrs"}
+NESTING_KINDS = {"inner", "anon_s", "named_s", "anon_u", "named_u", "a_inner_2", "dyn", "d_inner", "anon_bits", "anon_s32", "anon_s3", "same_hdr", "ptrs", "pnode", "a_pnode_2", "d_pnode"}
 
 
 def flat_aligned(ps):
@@ -174,7 +174,7 @@ def select(ps, pred):
 
 BIT_KINDS = {k for k in KINDS if k.startswith("b") and k[1:2].isdigit() or k in ("bi8", "be8", "bf32_whole", "bc8", "bcc", "bi16_whole", "be16s_whole")}
 ARRAY_KINDS = {k for k in KINDS if k.startswith(("a_", "d_", "z_", "eof_", "a2d"))}
-PTR_KINDS = {"ptr", "ptrs", "a_ptr_2"}
+PTR_KINDS = {"ptr", "ptrs", "a_ptr_2", "pnode", "a_pnode_2", "d_pnode"}
 
 
 def focused_programs(kinds, seed=0, partners=("u8", "u32", "i24", "char"), tier="quick", sandwich=()):
